@@ -902,6 +902,30 @@ fn sweep<'a, 'e, T: IteTable<'a, BddPtr<'a>> + Default>(
                                 }
                                 let rr = guarded(|| b.exists(r, VarLabel::new(want_label as u64)));
                                 s.check(rr, tt::exists(want, newv, n2), &Op::Exists(want, newv));
+                                // second level: the result (which mentions the new variable below the old
+                                // last level) combined again with old functions - every old literal and a
+                                // slice of the others (anything the builder remembered about "the last
+                                // level" or "the number of variables" before the growth shows here)
+                                if !crate::core::disabled("grown2") {
+                                    let mut js: Vec<usize> = perm.iter().cloned().step_by(13).collect();
+                                    for v in 0..cfg.n {
+                                        for l in [tt::var(v, cfg.n) as usize, tt::not(tt::var(v, cfg.n), cfg.n) as usize] {
+                                            if perm.contains(&l) {
+                                                js.push(l);
+                                            }
+                                        }
+                                    }
+                                    for j in js {
+                                        let y = tt::extend(j as TT, cfg.n, n2);
+                                        let py = s.f[j];
+                                        let r1 = guarded(|| b.and(r, py));
+                                        s.check(r1, want & y, &Op::And(want, y));
+                                        let r2 = guarded(|| b.or(py, r));
+                                        s.check(r2, want | y, &Op::Or(y, want));
+                                        let r3 = guarded(|| b.xor(r, py));
+                                        s.check(r3, want ^ y, &Op::Xor(want, y));
+                                    }
+                                }
                             }
                         }
                         // ite(newvar, f, g) for a slice of g
